@@ -436,7 +436,7 @@ pub fn c03(ctx: &Ctx, rep: &mut Report) {
             1 => {
                 // directly built structural program, methods laid out in shuffled order
                 let (prog, order) = structural_program(&mut rng, i % 30 == 1);
-                let replay = json!({"check":"C03","prog_b64": if prog.consts.len() < 200 { b64(&bcfmt::write(&prog)) } else { String::new() }, "order": order, "seed_index": i});
+                let replay = json!({"check":"C03","prog_b64": if prog.consts.len() < 3000 { b64(&bcfmt::write(&prog)) } else { String::new() }, "order": order, "seed_index": i});
                 match conv::program_from_prog(&prog, &order) {
                     Ok(p) => c03_one(rep, &format!("structural#{}", i), &p, replay, false),
                     Err(e) => rep.inconsistency(format!("structural#{}: Program::from failed: {}", i, e)),
@@ -630,7 +630,9 @@ fn c04_loaded(rep: &mut Report, origin: &str, prog: &Prog, replay: serde_json::V
 }
 
 pub fn c04(ctx: &Ctx, rep: &mut Report) {
-    if let Some(r) = &ctx.replay {
+    // a replay that names a hand-assembled vector or a golden file re-runs that deterministic part
+    let replay_fixed = ctx.replay.as_ref().map(|r| r.get("vector").is_some() || r.get("file").is_some() || r.get("via").is_some()).unwrap_or(false);
+    if let (Some(r), false) = (&ctx.replay, replay_fixed) {
         if let Some(src) = r.get("src").and_then(|s| s.as_str()) {
             if let Ok(ast) = real::parse(src) {
                 if let Ok(p) = real::compile(&ast) {
@@ -714,8 +716,11 @@ pub fn c04(ctx: &Ctx, rep: &mut Report) {
             }
         }
     }
+    if replay_fixed && ctx.replay.as_ref().map(|r| r.get("via").is_none()).unwrap_or(false) {
+        return;
+    }
     let mut k = 0u64;
-    for (name, src) in stress_sources() {
+    for (name, src) in if replay_fixed { vec![] } else { stress_sources() } {
         k += 1;
         if !ctx.mine(k) {
             continue;
@@ -733,7 +738,7 @@ pub fn c04(ctx: &Ctx, rep: &mut Report) {
             }
         }
     }
-    let n = ctx.share(200_000, 3_000_000);
+    let n = if replay_fixed { 0 } else { ctx.share(200_000, 3_000_000) };
     for i in 0..n {
         if i % 256 == 0 && ctx.out_of_time() && i >= n / 20 {
             rep.notes.push(format!("time budget reached after {} of {} random cases", i, n));
@@ -765,7 +770,7 @@ pub fn c04(ctx: &Ctx, rep: &mut Report) {
             1 => {
                 // both directions on structural programs
                 let prog = progs::structural(&mut rng, &progs::Opts { line_breaks: true, big: i % 30 == 1 });
-                let replay = json!({"check":"C04","prog_b64": if prog.consts.len() < 200 { b64(&bcfmt::write(&prog)) } else { String::new() }, "seed_index": i});
+                let replay = json!({"check":"C04","prog_b64": if prog.consts.len() < 3000 { b64(&bcfmt::write(&prog)) } else { String::new() }, "seed_index": i});
                 rep.conclusive += 1;
                 rep.nontrivial(hash_bytes(&bcfmt::write(&prog)));
                 c04_loaded(rep, &format!("structural#{}", i), &prog, replay.clone(), false);
@@ -1013,6 +1018,10 @@ pub fn c17(ctx: &Ctx, rep: &mut Report) {
                     }
                 }
             }
+        } else if let Some(f) = r.get("file").and_then(|s| s.as_str()) {
+            if let Ok(bytes) = std::fs::read(f) {
+                c17_one(rep, "replay", &bytes, r.clone());
+            }
         }
         return;
     }
@@ -1099,7 +1108,7 @@ pub fn c17(ctx: &Ctx, rep: &mut Report) {
         if i % 2 == 0 {
             let prog = progs::structural(&mut rng, &progs::Opts { line_breaks: false, big: i % 40 == 0 });
             let bytes = bcfmt::write(&prog);
-            let replay = json!({"check":"C17","bytes_b64": if bytes.len() < 6000 { b64(&bytes) } else { String::new() }, "seed_index": i});
+            let replay = json!({"check":"C17","bytes_b64": if bytes.len() < 400_000 { b64(&bytes) } else { String::new() }, "seed_index": i});
             c17_one(rep, &format!("structural#{}", i), &bytes, replay);
         } else if let Some((ast, src, origin)) = ast_sources(ctx, "C17src", i) {
             match real::compile(&ast).and_then(|p| real::serialize(&p)) {
